@@ -418,8 +418,8 @@ def eval_bodies(cases, wd, per_module=250):
 # the check
 # --------------------------------------------------------------------------
 TIER = {
-    "quick": {"runs": [("FullSet", 2), ("CoreSet", 4)], "all_ctx_len": 4, "eval": 700},
-    "thorough": {"runs": [("FullSet", 3), ("CoreSet", 5)], "all_ctx_len": 2, "eval": 6000},
+    "quick": {"runs": [("FullSet", 2), ("CoreSet", 4)], "all_ctx_len": 4, "rest_ctx": ("comma", "semi"), "eval": 700},
+    "thorough": {"runs": [("FullSet", 3), ("CoreSet", 5)], "all_ctx_len": 2, "rest_ctx": ("comma",), "eval": 6000},
 }
 
 
@@ -434,7 +434,7 @@ def check(tier, seed):
     units = []
     for b in bodies:
         allctx = len(b["ids"]) <= T["all_ctx_len"] or set(b["ids"]) <= core
-        units += make_units([b], CONTEXTS if allctx else ("comma", "semi"))
+        units += make_units([b], CONTEXTS if allctx else T["rest_ctx"])
     wd = mkscratch("codescan")
     try:
         verdict, runs = scan_replay(units, wd)
